@@ -64,6 +64,13 @@ CHECKS = {
             "installed from outside). Scope: <= 4 workers, <= 11 messages per scenario for the exhaustive orders.",
             "TLA+ model checking of all interleavings (MPSolver.tla) + replay of every TLC-enumerated arrival order "
             "through the real parent loop + TLA+ trace validation of each run (MPTrace.tla)"),
+    "C12": ("model_checking", "spec/Split.tla states the ranges of a split and TLC proves the partition lemma for every "
+            "[a,b] in -3..4 and k in 1..11; every recorded call of the real split (all those domains x k up to size+3 x "
+            "three variable layouts, plus random problems) is judged by TLC: original unchanged, parts identical "
+            "elsewhere, ranges = the specification's, parts pairwise disjoint, union = brute-force solution set.",
+            "Trusted: TLC, spec/Split.tla + NucsAbs!Solutions, harness/rec_split.py; the parts are enumerated by the "
+            "real BacktrackSolver in its default configuration under a watchdog.",
+            "TLC lemma on spec/Split.tla + TLA+ trace validation of recorded split calls (SplitTrace.tla)"),
     "C14": ("model_checking", "Same corpus; TLC compares each output with the brute-force hull of the supports, checks "
             "failure exactly without support, idempotence of a second call, and affine_eq against the one-round "
             "interval operator AffineEqRound.", TRUST_CALLS, TECH_CALLS),
